@@ -1031,6 +1031,12 @@ func c12(c *core.Ctx, r *core.Report) {
 				}
 			}
 		}
+		// … or the draw is made in a helper: the maker is then the one that is handed the random source
+		for _, mp := range maker.Params {
+			if sig, ok := mp.Type().Underlying().(*types.Signature); ok && sig.Params().Len() == 1 && sig.Results().Len() == 1 && isIntType(sig.Params().At(0).Type()) && isIntType(sig.Results().At(0).Type()) {
+				kind = "withRandomDistribution"
+			}
+		}
 		closures[kind] = fn
 		makers[kind] = maker
 	}
@@ -1052,6 +1058,10 @@ func c12(c *core.Ctx, r *core.Report) {
 	}
 	is100ms := func(v ssa.Value) bool {
 		k, ok := an.Strip(v).(*ssa.Const)
+		if !ok {
+			// a parameter or field whose only source in the module is that constant
+			k, ok = singleSource(c, v).(*ssa.Const)
+		}
 		return ok && k.Value != nil && isDuration(k.Type()) && k.Int64() == 100000000
 	}
 
@@ -1177,43 +1187,51 @@ func c12(c *core.Ctx, r *core.Report) {
 			dp, rp := durParam(fn), rateParam(fn)
 			// the returns that hand out this distributing function, and the pass-through returns that precede them
 			long := 0
-			for _, ret := range an.Returns(fn) {
-				if len(ret.Results) < 2 {
-					continue
-				}
-				mc, isMC := an.Strip(ret.Results[1]).(*ssa.MakeClosure)
-				if !isMC {
-					continue
-				}
-				if f, isF := mc.Fn.(*ssa.Function); !isF || an.Unwrap(f) != closures[name] {
-					continue
-				}
-				long++
-				r.Check(is100ms(ret.Results[0]), name+"#long", an.Pos(c, ret), "sub-tick is the constant 100 ms", "for longer intervals "+name+" returns sub-tick "+an.D().Of(ret.Results[0]))
-				// reached only when the interval exceeds 100 ms, the other side returning the parameters
-				short := 0
-				for _, g := range an.GuardsOf(ret.Block()) {
-					bo, isBin := g.Cond.(*ssa.BinOp)
-					if !isBin || dp == nil || an.Strip(bo.X) != ssa.Value(dp) || !is100ms(bo.Y) {
+			if paths, err := an.DecisionPathsInl(fn, 256, 2, nil); err == nil {
+				// path by path (conditions computed by helpers expanded): every path handing out the distributing function
+				// has interval > 100 ms, and every path with interval ≤ 100 ms returns the parameters
+				sawShort := false
+				for _, p := range paths {
+					if p.Ret == nil || len(p.Ret.Results) < 2 {
 						continue
 					}
-					if !((bo.Op == token.LEQ && !g.Polarity) || (bo.Op == token.GTR && g.Polarity)) {
-						continue
-					}
-					other := g.If.Block().Succs[0]
-					if bo.Op == token.GTR {
-						other = g.If.Block().Succs[1]
-					}
-					for _, sret := range an.Returns(fn) {
-						if sret.Block() == other || other.Dominates(sret.Block()) {
-							short++
-							ok0 := an.Strip(sret.Results[0]) == ssa.Value(dp)
-							ok1 := rp != nil && an.Strip(sret.Results[1]) == ssa.Value(rp)
-							r.Check(ok0 && ok1, name+"#short", an.Pos(c, sret), "intervals ≤ 100 ms pass through", "for intervals ≤ 100 ms "+name+" returns ("+an.D().Of(sret.Results[0])+", "+an.D().Of(sret.Results[1])+")")
+					r0, r1 := p.OnPath(p.Ret.Results[0]), p.OnPath(p.Ret.Results[1])
+					isLong, isShort := false, false
+					for _, l := range p.Lits {
+						bo, isBin := l.Cond.(*ssa.BinOp)
+						if !isBin || dp == nil || an.Strip(l.T(bo.X)) != ssa.Value(dp) || !is100ms(l.T(bo.Y)) {
+							continue
+						}
+						switch {
+						case (bo.Op == token.LEQ && !l.Val) || (bo.Op == token.GTR && l.Val):
+							isLong = true
+						case (bo.Op == token.LEQ && l.Val) || (bo.Op == token.GTR && !l.Val):
+							isShort = true
 						}
 					}
+					distributing := false
+					if mc, isMC := an.Strip(r1).(*ssa.MakeClosure); isMC {
+						if f, isF := mc.Fn.(*ssa.Function); isF && an.Unwrap(f) == closures[name] {
+							distributing = true
+						}
+					}
+					if distributing {
+						long++
+						r.Check(is100ms(r0), name+"#long", an.Pos(c, p.Ret), "sub-tick is the constant 100 ms", "for longer intervals "+name+" returns sub-tick "+an.D().Of(r0))
+						r.Check(isLong, name+"#cases", an.Pos(c, p.Ret), "the distributing return is reached only for intervals above 100 ms; shorter ones pass through", name+" hands out the distributed rate without a pass-through for intervals ≤ 100 ms")
+					}
+					if isShort {
+						sawShort = true
+						ok0 := an.Strip(r0) == ssa.Value(dp)
+						ok1 := rp != nil && an.Strip(r1) == ssa.Value(rp)
+						r.Check(ok0 && ok1, name+"#short", an.Pos(c, p.Ret), "intervals ≤ 100 ms pass through", "for intervals ≤ 100 ms "+name+" returns ("+an.D().Of(r0)+", "+an.D().Of(r1)+")")
+					}
 				}
-				r.Check(short >= 1, name+"#cases", an.Pos(c, ret), "the distributing return is reached only for intervals above 100 ms; shorter ones pass through", name+" hands out the distributed rate without a pass-through for intervals ≤ 100 ms")
+				if long >= 1 {
+					r.Check(sawShort, name+"#cases", c.Pos(fn.Pos()), "intervals ≤ 100 ms have their own pass-through path", name+" hands out the distributed rate without a pass-through for intervals ≤ 100 ms")
+				}
+			} else {
+				r.Undecided(name+"#cases", c.Pos(fn.Pos()), "the paths of %s cannot be enumerated: %v", core.FuncName(fn), err)
 			}
 			r.Check(long >= 1, name+"#made", c.Pos(fn.Pos()), "the distributing function is returned with its sub-tick", "no return of "+core.FuncName(fn)+" hands out the distributing function")
 			// steps per cycle = interval.Milliseconds() / (100 ms).Milliseconds()
@@ -1221,6 +1239,37 @@ func c12(c *core.Ctx, r *core.Report) {
 				for _, v := range dc.perCycle.initial(c, closures[name]) {
 					okSteps := false
 					qv := an.RootFV(fn, v).Resolve(nil)
+					if ex, isEx := qv.V.(*ssa.Extract); isEx {
+						// a helper with several returns (`return 0, false` / `return n, true`): the one non-zero count
+						if hc, isCall := ex.Tuple.(*ssa.Call); isCall {
+							if h := an.Callee(hc); h != nil && core.RelPkg(h) == apkg && h.Blocks != nil {
+								var nz []ssa.Value
+								for _, hr := range an.Returns(h) {
+									if k, isK := hr.Results[ex.Index].(*ssa.Const); isK && k.Value != nil && k.Int64() == 0 {
+										continue
+									}
+									nz = append(nz, hr.Results[ex.Index])
+								}
+								if len(nz) == 1 {
+									qv = an.FV{V: an.Strip(nz[0]), F: &an.Frame{Fn: h, Site: hc, Parent: qv.F}}.Resolve(nil)
+								}
+							}
+						}
+					}
+					if phi, isPhi := qv.V.(*ssa.Phi); isPhi {
+						// computed by a helper that also reports "no distribution needed" with a zero count: the count on
+						// the other path
+						var nz []ssa.Value
+						for _, e := range phi.Edges {
+							if k, isK := e.(*ssa.Const); isK && k.Value != nil && k.Int64() == 0 {
+								continue
+							}
+							nz = append(nz, e)
+						}
+						if len(nz) == 1 {
+							qv = an.FV{V: an.Strip(nz[0]), F: qv.F}.Resolve(nil)
+						}
+					}
 					if q, isQ := qv.V.(*ssa.BinOp); isQ && q.Op == token.QUO {
 						ms := func(x ssa.Value) ssa.Value {
 							xv := an.FV{V: x, F: qv.F}.Resolve(nil)
@@ -1288,26 +1337,69 @@ func c12(c *core.Ctx, r *core.Report) {
 			r.Check(ret.Results[0] == cur, "random#returned", an.Pos(c, ret), "the amount returned is the amount subtracted from the budget", "the closure returns "+an.D().Of(ret.Results[0])+" but subtracts "+an.D().Of(cur)+" from the budget: iterations are created or lost")
 		}
 		r.Floor("non-constant returns", nz, 1)
-		// sources of cur
-		phi, isPhi := cur.(*ssa.Phi)
-		if !isPhi {
+		// sources of cur — computed in place, or by a helper that is handed the step counter and the budget
+		isRem, isSteps := rem.loadOf, steps.loadOf
+		var curFn *ssa.Function
+		if hc, isCall := cur.(*ssa.Call); isCall {
+			if h := an.Callee(hc); h != nil && core.RelPkg(h) == apkg && h.Blocks != nil {
+				ri, si := -1, -1
+				for i, a := range hc.Call.Args {
+					if rem.loadOf(a) {
+						ri = i
+					}
+					if steps.loadOf(a) {
+						si = i
+					}
+				}
+				if ri >= 0 && si >= 0 && ri < len(h.Params) && si < len(h.Params) {
+					rp, sp := h.Params[ri], h.Params[si]
+					isRem = func(v ssa.Value) bool { return an.Strip(v) == ssa.Value(rp) }
+					isSteps = func(v ssa.Value) bool { return an.Strip(v) == ssa.Value(sp) }
+					curFn = h
+				}
+			}
+		}
+		// the values that can flow into the amount, each with the block it flows from and the block where it joins
+		type source struct {
+			v          ssa.Value
+			pred, join *ssa.BasicBlock
+		}
+		var sources []source
+		var collect func(v ssa.Value, from, join *ssa.BasicBlock, depth int)
+		collect = func(v ssa.Value, from, join *ssa.BasicBlock, depth int) {
+			if phi, isPhi := v.(*ssa.Phi); isPhi && depth < 4 {
+				for i, e := range phi.Edges {
+					collect(e, phi.Block().Preds[i], phi.Block(), depth+1)
+				}
+				return
+			}
+			sources = append(sources, source{v, from, join})
+		}
+		if curFn != nil {
+			for _, ret := range an.Returns(curFn) {
+				collect(ret.Results[0], ret.Block(), ret.Block(), 0)
+			}
+		} else if phi, isPhi := cur.(*ssa.Phi); isPhi {
+			collect(phi, nil, nil, 0)
+		}
+		if len(sources) < 2 {
 			r.Undecided("random#sources", c.Pos(fn.Pos()), "the amount handed out is %s, expected a merge of budget/draw", an.D().Of(cur))
 			return
 		}
 		sawLast, sawClamp := false, false
-		for i, e := range phi.Edges {
-			pred := phi.Block().Preds[i]
-			if rem.loadOf(e) {
+		for _, src := range sources {
+			e, pred := src.v, src.pred
+			if isRem(e) {
 				// budget itself: on the last-step/exhausted branch or the clamp branch
 				for _, g := range an.GuardsOf(pred) {
 					bo, isB := g.Cond.(*ssa.BinOp)
 					if !isB {
 						continue
 					}
-					if bo.Op == token.EQL && steps.loadOf(bo.X) && an.D().Of(bo.Y) == "1" && g.Polarity {
+					if bo.Op == token.EQL && isSteps(bo.X) && an.D().Of(bo.Y) == "1" && g.Polarity {
 						sawLast = true
 					}
-					if bo.Op == token.GTR && rem.loadOf(bo.Y) && g.Polarity {
+					if bo.Op == token.GTR && isRem(bo.Y) && g.Polarity {
 						sawClamp = true
 					}
 				}
@@ -1315,7 +1407,7 @@ func c12(c *core.Ctx, r *core.Report) {
 				if len(pred.Preds) == 2 {
 					for _, pp := range pred.Preds {
 						if iff, ok := pp.Instrs[len(pp.Instrs)-1].(*ssa.If); ok {
-							if bo, isB := iff.Cond.(*ssa.BinOp); isB && bo.Op == token.EQL && steps.loadOf(bo.X) && an.D().Of(bo.Y) == "1" && pp.Succs[0] == pred {
+							if bo, isB := iff.Cond.(*ssa.BinOp); isB && bo.Op == token.EQL && isSteps(bo.X) && an.D().Of(bo.Y) == "1" && pp.Succs[0] == pred {
 								sawLast = true
 							}
 						}
@@ -1331,7 +1423,7 @@ func c12(c *core.Ctx, r *core.Report) {
 			}
 			okEdge := false
 			if iff, ok := pred.Instrs[len(pred.Instrs)-1].(*ssa.If); ok {
-				if bo, isB := iff.Cond.(*ssa.BinOp); isB && bo.Op == token.GTR && bo.X == ssa.Value(call) && rem.loadOf(bo.Y) && pred.Succs[1] == phi.Block() {
+				if bo, isB := iff.Cond.(*ssa.BinOp); isB && bo.Op == token.GTR && bo.X == ssa.Value(call) && isRem(bo.Y) && pred.Succs[1] == src.join {
 					okEdge = true
 					sawClamp = true
 				}
